@@ -76,23 +76,35 @@ impl<'c, 'view> NoInvalidRegexpVisitor<'c, 'view> {
       }
       if let Some(pattern) = &check_expr_for_string_literal(&args[0].expr) {
         if args.len() > 1 {
-          if let Some(flags) = &check_expr_for_string_literal(&args[1].expr) {
-            self.check_regex(pattern, flags, range);
-            return;
-          }
+          // The flags are only known if they are a string literal.
+          let flags = check_expr_for_string_literal(&args[1].expr);
+          self.check_regex(pattern, flags.as_deref(), range);
+        } else {
+          self.check_regex(pattern, Some(""), range);
         }
-        self.check_regex(pattern, "", range);
       }
     }
   }
 
-  fn check_regex(&mut self, pattern: &str, flags: &str, range: SourceRange) {
-    if self.check_for_invalid_flags(flags)
-      || (!flags.is_empty()
-        && self.check_for_invalid_pattern(pattern, flags.contains('u')))
-      || (self.check_for_invalid_pattern(pattern, true)
-        && self.check_for_invalid_pattern(pattern, false))
-    {
+  /// `flags` is `None` when the flags are not statically known: the pattern is
+  /// then reported only if it is invalid both with and without the `u` flag.
+  fn check_regex(
+    &mut self,
+    pattern: &str,
+    flags: Option<&str>,
+    range: SourceRange,
+  ) {
+    let invalid = match flags {
+      Some(flags) => {
+        self.check_for_invalid_flags(flags)
+          || self.check_for_invalid_pattern(pattern, flags.contains('u'))
+      }
+      None => {
+        self.check_for_invalid_pattern(pattern, true)
+          && self.check_for_invalid_pattern(pattern, false)
+      }
+    };
+    if invalid {
       self
         .context
         .add_diagnostic_with_hint(range, CODE, MESSAGE, HINT);
@@ -112,7 +124,7 @@ impl Visit for NoInvalidRegexpVisitor<'_, '_> {
   noop_visit_type!();
 
   fn visit_regex(&mut self, regex: &deno_ast::swc::ast::Regex) {
-    self.check_regex(&regex.exp, &regex.flags, regex.range());
+    self.check_regex(&regex.exp, Some(&regex.flags), regex.range());
   }
 
   fn visit_call_expr(&mut self, call_expr: &deno_ast::swc::ast::CallExpr) {
